@@ -46,6 +46,13 @@ def make_body(rnd, allow_nested=True):
     trailing = rnd.choice([0, 0, 1, 2, 3])
     for _ in range(trailing):
         ops.append(["await", "one", [rnd.choice(["item", "task"])]])
+    if allow_nested and ops and rnd.random() < 0.3:
+        # a context (an AsyncContext subclass or a scoped-value override) entered at one point of the body and left at a
+        # later one - steps, awaits and Values in between
+        i = rnd.randint(0, len(ops) - 1)
+        j = rnd.randint(i + 1, len(ops))
+        ops.insert(j, ["leave"])
+        ops.insert(i, ["enter", rnd.choice(["actx", "override"])])
     return ops
 
 
@@ -82,6 +89,9 @@ class Ctx(object):
         self.bad_resume = None
         self.ctr = itertools.count()
         self.payloads = {}
+        self.ctx_events = []
+        self.contexts_entered = 0
+        self.scoped = None
 
     def norm(self, out):
         """Payload futures are created inside the body: name them by the Value they belong to (by identity)."""
@@ -104,9 +114,11 @@ class Ctx(object):
 
 
 def build(ctx):
-    from asynq import ConstFuture, END_OF_GENERATOR, Value, async_generator
+    from asynq import AsyncContext, AsyncScopedValue, ConstFuture, END_OF_GENERATOR, Value, async_generator
     from asynq import asynq as A
     from .. import harness
+
+    ctx.scoped = AsyncScopedValue("outside")
 
     @A()
     def child(x):
@@ -172,10 +184,29 @@ def build(ctx):
             else:
                 yield mk(op)
 
+    class BodyCtx(AsyncContext):
+        def resume(self):
+            ctx.ctx_events.append("resume")
+
+        def pause(self):
+            ctx.ctx_events.append("pause")
+
     @async_generator()
     def gen(ops):
+        open_ = []
         for op in ops:
             ctx.executed += 1
+            if op[0] == "enter":
+                cm = BodyCtx() if op[1] == "actx" else ctx.scoped.override("inside")
+                cm.__enter__()
+                open_.append(cm)
+                ctx.contexts_entered += 1
+                continue
+            if op[0] == "leave":
+                open_.pop().__exit__(None, None, None)
+                continue
+            if open_ and not isinstance(open_[-1], BodyCtx) and ctx.scoped.get() != "inside":
+                ctx.bad_resume = ("scoped value inside its override", repr(ctx.scoped.get())[:60])
             if op[0] == "await":
                 fs = [fut(k) for k in op[2]]
                 if op[1] == "one":
@@ -242,6 +273,13 @@ def check_body(ops, res, c):
         viol.append(("payload-future-computed-behind-the-consumers-back", {"value": ctx.payload_computed(), "by": "list_of_generator"}))
     if out != ("val", vals):
         viol.append(("list_of_generator", {"expected": vals, "observed": repr(out)[:200], "END_marker_in_result": has_end(out[1]) if out[0] == "val" else False}))
+    elif ctx.contexts_entered:
+        c["bodies_holding_a_context_across_steps"] = c.get("bodies_holding_a_context_across_steps", 0) + 1
+        ev = ctx.ctx_events
+        if ev and (ev[0] != "resume" or ev[-1] != "pause" or any(x == y for x, y in zip(ev, ev[1:]))):
+            viol.append(("context-of-a-generator-body-not-alternating-resume-pause", {"events": ev[:12]}))
+        if ctx.scoped.get() != "outside":
+            viol.append(("scoped-value-not-restored-after-the-generator-finished", {"value": repr(ctx.scoped.get())[:60]}))
     # take_first for every n
     for n in range(0, len(vals) + 3):
         ctx, gen = fresh()
@@ -373,7 +411,7 @@ def run_unit(unit, progress):
 
 def reach(c, tier):
     out = []
-    for k in ("bodies_with_awaits_after_last_value", "bodies_without_values", "bodies_with_nested_generator", "take_first_n0", "take_first_n_beyond_len", "repeated_take_first", "guard_checks", "exhaustion_checks", "runs_with_future_payloads"):
+    for k in ("bodies_with_awaits_after_last_value", "bodies_without_values", "bodies_with_nested_generator", "take_first_n0", "take_first_n_beyond_len", "repeated_take_first", "guard_checks", "exhaustion_checks", "runs_with_future_payloads", "bodies_holding_a_context_across_steps"):
         if not c.get(k):
             out.append("%s is zero" % k)
     return out
